@@ -472,12 +472,19 @@ func (e *Enc) ghostComp(g *GhostDecl) *Comp {
 		e.errors = append(e.errors, fmt.Sprintf("ghost %s: %v", g.Name, err))
 	}
 	vs := "Int"
+	var vtyp types.Type
 	if vt, err := e.evalType(g.ValType, pkg); err == nil {
 		vs = e.W.sortOf(vt)
+		vtyp = vt
 	} else {
 		e.errors = append(e.errors, fmt.Sprintf("ghost %s: %v", g.Name, err))
 	}
-	return e.W.comp("G!"+g.Name, "(Array "+ks+" "+vs+")", "ghost")
+	c := e.W.comp("G!"+g.Name, "(Array "+ks+" "+vs+")", "ghost")
+	if vtyp != nil {
+		c.ValTyp = vtyp
+		c.KeySort = ks
+	}
+	return c
 }
 
 func (e *Enc) allocComp() *Comp { return e.W.comp("alloc", "Int", "alloc") }
